@@ -426,7 +426,11 @@ def _tcheck_build(b, workdir, seed, n_inputs, log):
         for n in names:
             s = b.driver.shims[n].view_sig()
             ps = [t for t, _ in s['ins']] + [t + '*' for t, _, _ in s['outs']]
-            L.append('extern %s %s(%s);' % (s['ret'], n, ', '.join(ps) or 'void'))
+            # the real function is declared with the signedness of its C++ parameters: clang relies on the caller's sign extension of
+            # int8_t/int16_t arguments (signext), so passing them as u8/u16 would hand it a differently extended register
+            SGN = {'int8_t': 's8', 'int16_t': 's16', 'signed char': 's8', 'short': 's16'}
+            ps_real = [SGN.get(ct, t) for (t, _), ct in zip(s['ins'], s['cpp_ins'])] + [t + '*' for t, _, _ in s['outs']]
+            L.append('extern %s %s(%s);' % (s['ret'], n, ', '.join(ps_real) or 'void'))
             L.append('extern %s T_%s(%s);' % (s['ret'], n, ', '.join(ps) or 'void'))
         nsz = any('nsz' in t for t in info.get('trusted', [])) or any(l in ('fminf', 'fmaxf', 'fmin', 'fmax') for l in info.get('libm', []))  # sign of fmin/fmax(+0,-0) is unspecified
         zs = ' || (a == 0 && b == 0)' if nsz else ''
@@ -499,6 +503,11 @@ def _tcheck_build(b, workdir, seed, n_inputs, log):
             ['gcc', '-O0', '-w', '-I' + RT, '-c', mainc, '-o', mainc + '.o'],
         ]
         for c in cmds:
+            if c[0] == 'g++' and getattr(b, 'native_cc', None):
+                # configuration macros whose meaning depends on the compiler (GLM_FORCE_CXX98 under clang keeps __has_feature-detected
+                # language features, under g++ it does not): the native reference must be built by the compiler of the extraction
+                c = [b.native_cc] + c[1:]
+                stats.setdefault('native_reference_clang', []).append(b.tag)
             rc, so, se, dt = sh(c, timeout=900, mem_gb=16)
             log('T-check %s: %s %.1fs' % (b.tag, ' '.join(c[:2]), dt))
             if rc != 0 and c[0] == 'g++':
